@@ -1478,3 +1478,296 @@ Proof.
   rewrite IH. cbn [map flat_map fst snd]. rewrite last_cons.
   destruct r; reflexivity.
 Qed.
+
+(* ====================================================================== *)
+(* 11. observers (on_block / on_permit) that raise ([kop], [kstep], [krun] of Model.v)                     *)
+
+(* what the caller of run() knows of an answer when the observers are forgotten *)
+Definition untag (x : bool * reply) : bool * result := (fst x, reply_result (snd x)).
+
+(* a result of the gate handed out for the first time: not cached, carries the executor's verdict, not a refusal *)
+Definition fresh_gate (res : result) : Prop :=
+  r_cached res = false /\ r_exec res <> None /\ r_action res <> ACircuitOpen.
+
+(* a sequential history with observers *)
+Definition seqk (ops : list (op * cbeh)) : list kop := map (fun x => (Seq (fst x), snd x)) ops.
+
+Lemma notify_result k b res : reply_result (notify k b res) = res.
+Proof. unfold notify. destruct (hooked k res); [destruct b|]; reflexivity. Qed.
+
+Lemma notify_inv k b x res :
+  notify k b x = Raised res -> res = x /\ b = CbRaises /\ hooked k x = true.
+Proof.
+  unfold notify. destruct (hooked k x); [destruct b|]; intros H; inversion H; auto.
+Qed.
+
+Lemma finish_y_k_erase c k b s r z :
+  finish_y c s r z = (fst (finish_y_k c k b s r z), reply_result (snd (finish_y_k c k b s r z))).
+Proof.
+  unfold finish_y, finish_y_k, fail_req. destruct (yb r); [|reflexivity].
+  cbn [fst snd]. rewrite notify_result. reflexivity.
+Qed.
+
+Lemma finish_z_k_erase c k b s r :
+  finish_z c s r = (fst (finish_z_k c k b s r), reply_result (snd (finish_z_k c k b s r))).
+Proof.
+  unfold finish_z, finish_z_k. destruct (zb r); [apply finish_y_k_erase | reflexivity].
+Qed.
+
+Lemma run_req_k_erase c k b s r :
+  run_req c s r = (fst (run_req_k c k b s r), reply_result (snd (run_req_k c k b s r))).
+Proof.
+  rewrite run_req_phases. unfold run_req_k.
+  destruct (arrive c s r) as [s1 [res|]]; [reflexivity | apply finish_z_k_erase].
+Qed.
+
+Lemma end_req_k_erase c k b s f :
+  end_req c s f = (fst (end_req_k c k b s f), reply_result (snd (end_req_k c k b s f))).
+Proof.
+  unfold end_req, end_req_k. destruct (f_place f); [apply finish_z_k_erase|].
+  destruct (zb (f_req f)); [apply finish_y_k_erase | reflexivity].
+Qed.
+
+Lemma gate_fresh g z y : fresh_gate (gate_result g z y).
+Proof.
+  destruct (gate_result_shape g z y) as (Hc & Ha & He & _).
+  split; [exact Hc|]. split; [rewrite He; discriminate|]. apply is_co_false. exact Ha.
+Qed.
+
+Lemma finish_y_k_raised c k b s r z s' res :
+  finish_y_k c k b s r z = (s', Raised res) ->
+  b = CbRaises /\ hooked k res = true /\ fresh_gate res.
+Proof.
+  unfold finish_y_k, fail_req. destruct (yb r) as [y|]; intros H; [|discriminate].
+  inversion H as [[Hs Hn]]. destruct (notify_inv _ _ _ _ Hn) as (-> & Hb & Hh).
+  split; [exact Hb|]. split; [exact Hh | apply gate_fresh].
+Qed.
+
+Lemma finish_z_k_raised c k b s r s' res :
+  finish_z_k c k b s r = (s', Raised res) ->
+  b = CbRaises /\ hooked k res = true /\ fresh_gate res.
+Proof.
+  unfold finish_z_k, fail_req. destruct (zb r) as [z|]; intros H; [|discriminate].
+  eapply finish_y_k_raised; exact H.
+Qed.
+
+Lemma run_req_k_raised c k b s r s' res :
+  run_req_k c k b s r = (s', Raised res) ->
+  b = CbRaises /\ hooked k res = true /\ fresh_gate res.
+Proof.
+  unfold run_req_k. destruct (arrive c s r) as [s1 [x|]]; intros H; [discriminate|].
+  eapply finish_z_k_raised; exact H.
+Qed.
+
+Lemma end_req_k_raised c k b s f s' res :
+  end_req_k c k b s f = (s', Raised res) ->
+  b = CbRaises /\ hooked k res = true /\ fresh_gate res.
+Proof.
+  unfold end_req_k, fail_req. destruct (f_place f).
+  - apply finish_z_k_raised.
+  - destruct (zb (f_req f)); [apply finish_y_k_raised | discriminate].
+Qed.
+
+(* one request: the state after it and the result computed for it are those of run() without observers; the caller
+   gets an exception instead of the result only if an installed observer was called (a fresh result of the gate,
+   never a refusal, a cache hit or an agent exception) and raised *)
+Lemma cb_request_proof :
+  forall c k b s r s' p,
+    run_req_k c k b s r = (s', p) ->
+    run_req c s r = (s', reply_result p) /\
+    (is_raised p = true ->
+       b = CbRaises /\ hooked k (reply_result p) = true /\ fresh_gate (reply_result p)) /\
+    (b = CbReturns \/ hooked k (reply_result p) = false \/ ~ fresh_gate (reply_result p) -> is_raised p = false).
+Proof.
+  intros c k b s r s' p H.
+  split; [rewrite (run_req_k_erase c k b s r), H; reflexivity|].
+  assert (R : is_raised p = true ->
+              b = CbRaises /\ hooked k (reply_result p) = true /\ fresh_gate (reply_result p)).
+  { destruct p as [res|res]; cbn [is_raised reply_result]; [discriminate|].
+    intros _. eapply run_req_k_raised; exact H. }
+  split; [exact R|].
+  intros Hn. destruct (is_raised p) eqn:E; [|reflexivity].
+  destruct (R eq_refl) as (Rb & Rh & Rf).
+  destruct Hn as [Hn | [Hn | Hn]]; [congruence | congruence | contradiction].
+Qed.
+
+Lemma kstep_erase c k cs o :
+  cstep c cs (fst o) = (fst (kstep c k cs o), option_map untag (snd (kstep c k cs o))).
+Proof.
+  destruct cs as [s fl]. destruct o as [o b]. unfold kstep, cstep. cbn [fst snd].
+  destruct o as [o'|id r w|id].
+  - destruct o' as [d|r| |]; try reflexivity.
+    cbn [step]. rewrite (run_req_k_erase c k b s r).
+    destruct (run_req_k c k b s r) as [s' p]. reflexivity.
+  - destruct (begin_req c s r w) as [s' [res|]]; reflexivity.
+  - destruct (fly_lookup id fl) as [f|]; [|reflexivity].
+    rewrite (end_req_k_erase c k b s f). destruct (end_req_k c k b s f) as [s' p]. reflexivity.
+Qed.
+
+Lemma krun_cons c k cs o rest :
+  krun c k cs (o :: rest) =
+  let '(cs1, r) := kstep c k cs o in
+  let '(cs2, rs) := krun c k cs1 rest in
+  (cs2, match r with Some x => x :: rs | None => rs end).
+Proof. reflexivity. Qed.
+
+(* whatever observers are installed and whichever of their calls raise: the history without them *)
+Lemma krun_erase c k : forall ops cs,
+  crun c cs (map fst ops) = (fst (krun c k cs ops), map untag (snd (krun c k cs ops))).
+Proof.
+  induction ops as [|o rest IH]; intros cs; [reflexivity|].
+  cbn [map]. rewrite crun_cons, krun_cons, (kstep_erase c k cs o).
+  destruct (kstep c k cs o) as [cs1 r]. cbn [fst snd]. rewrite IH.
+  destruct (krun c k cs1 rest) as [cs2 rs]. cbn [fst snd].
+  destruct r; reflexivity.
+Qed.
+
+Lemma krun_erase_eq c k ops cs cs' rs :
+  krun c k cs ops = (cs', rs) -> crun c cs (map fst ops) = (cs', map untag rs).
+Proof. intros H. rewrite (krun_erase c k ops cs), H. reflexivity. Qed.
+
+Lemma kstep_raised c k cs o cs1 tg res :
+  kstep c k cs o = (cs1, Some (tg, Raised res)) ->
+  snd o = CbRaises /\ hooked k res = true /\ fresh_gate res.
+Proof.
+  destruct cs as [s fl]. destruct o as [o b]. unfold kstep. cbn [fst snd].
+  destruct o as [o'|id r w|id].
+  - destruct o' as [d|r| |]; cbn [step]; try discriminate.
+    destruct (run_req_k c k b s r) as [s' p] eqn:E. intros H. inversion H; subst.
+    eapply run_req_k_raised; exact E.
+  - destruct (begin_req c s r w) as [s' [x|]]; discriminate.
+  - destruct (fly_lookup id fl) as [f|]; [|discriminate].
+    destruct (end_req_k c k b s f) as [s' p] eqn:E. intros H. inversion H; subst.
+    eapply end_req_k_raised; exact E.
+Qed.
+
+Lemma krun_raised c k : forall ops cs cs' rs,
+  krun c k cs ops = (cs', rs) ->
+  Forall (fun x => is_raised (snd x) = true ->
+                   hooked k (reply_result (snd x)) = true /\ fresh_gate (reply_result (snd x))) rs.
+Proof.
+  induction ops as [|o rest IH]; intros cs cs' rs H.
+  - inversion H; subst. constructor.
+  - rewrite krun_cons in H. destruct (kstep c k cs o) as [cs1 r] eqn:E.
+    destruct (krun c k cs1 rest) as [cs2 rs2] eqn:E2. inversion H; subst; clear H.
+    specialize (IH cs1 cs' rs2 E2).
+    destruct r as [[tg p]|]; [|exact IH]. constructor; [|exact IH].
+    destruct p as [res|res]; cbn [snd is_raised reply_result]; [discriminate|].
+    intros _. destruct (kstep_raised c k cs o cs1 tg res E) as (_ & Hh & Hf). auto.
+Qed.
+
+Lemma map_snd_untag rs : map snd (map untag rs) = map (fun x => reply_result (snd x)) rs.
+Proof. rewrite map_map. reflexivity. Qed.
+
+(* never open before the threshold has been reached in total, with observers that raise: a request counts as a
+   failure by what the agents did, whether run() returned its result or raised the observer's exception *)
+Lemma cb_open_implies_threshold_proof :
+  forall c k s fl ops s' fl' rs,
+    interim c = false ->
+    circ (br s) = Closed -> fcount (br s) = 0 ->
+    krun c k (s, fl) ops = ((s', fl'), rs) ->
+    (circ (br s') <> Closed ->
+       threshold c <= count_failures (map (fun x => reply_result (snd x)) rs) /\
+       threshold c <= fcount (br s') /\ last_failure (br s') <> None) /\
+    (trips (br s) < trips (br s') ->
+       threshold c <= count_failures (map (fun x => reply_result (snd x)) rs)).
+Proof.
+  intros c k s fl ops s' fl' rs Hi Hc Hf H.
+  pose proof (overlap_open_implies_threshold_proof c s fl (map fst ops) s' fl' (map untag rs) Hi Hc Hf
+                (krun_erase_eq c k ops _ _ _ H)) as P.
+  rewrite map_snd_untag in P. exact P.
+Qed.
+
+Lemma seqk_erase ops : map fst (seqk ops) = map Seq (map fst ops).
+Proof. unfold seqk. rewrite !map_map. reflexivity. Qed.
+
+Lemma map_pair_true_inv (rs0 : list result) rs :
+  map (pair true) rs0 = map untag rs -> rs0 = map (fun x => reply_result (snd x)) rs.
+Proof.
+  intros H. apply (f_equal (map snd)) in H. rewrite map_snd_untag, map_map in H.
+  cbn [snd] in H. rewrite map_id in H. exact H.
+Qed.
+
+(* intentional blocks are never counted as failures - whether or not on_block raises *)
+Lemma cb_blocks_not_failures_proof :
+  forall c k ops s fl s' fl' rs,
+    interim c = false ->
+    requests_only (map fst ops) -> krun c k (s, fl) (seqk ops) = ((s', fl'), rs) ->
+    Forall (fun x => blockb (reply_result (snd x)) = true) rs ->
+    fcount (br s') = fcount (br s) /\ trips (br s') = trips (br s) /\
+    last_failure (br s') = last_failure (br s) /\
+    (circ (br s') = circ (br s) \/ (circ (br s) = Open /\ circ (br s') = HalfOpen)).
+Proof.
+  intros c k ops s fl s' fl' rs Hi Hro H Hall.
+  pose proof (krun_erase_eq c k _ _ _ _ H) as E. rewrite seqk_erase, crun_seq in E.
+  destruct (run_ops c s (map fst ops)) as [s1 rs0] eqn:R. inversion E as [[Hs Hfl Hrs]]. subst s1.
+  apply map_pair_true_inv in Hrs. subst rs0.
+  apply (blocks_not_failures_proof c (map fst ops) s s' _ Hi Hro R).
+  apply Forall_forall. intros x Hx. apply in_map_iff in Hx. destruct Hx as (y & <- & Hy).
+  rewrite Forall_forall in Hall. apply (Hall y Hy).
+Qed.
+
+(* a successful probe closes the breaker and clears the count - whether or not on_permit raises *)
+Lemma cb_probe_success_proof :
+  forall c k b s r s' p,
+    enabled c = true -> probe_state c s ->
+    run_req_k c k b s r = (s', p) -> successb (reply_result p) = true ->
+    circ (br s') = Closed /\ fcount (br s') = 0 /\ trips (br s') = trips (br s).
+Proof.
+  intros c k b s r s' p He Hp H Hs.
+  destruct (cb_request_proof c k b s r s' p H) as (R & _).
+  exact (probe_success_proof c s r s' _ He Hp R Hs).
+Qed.
+
+(* a failed probe re-opens and restarts the timeout - whether or not on_block raises; afterwards nothing is
+   admitted, and no observer is called, before a full timeout has passed *)
+Lemma cb_probe_failure_proof :
+  forall c k b s r s' p,
+    legacy c = false -> interim c = false -> enabled c = true -> probe_state c s ->
+    run_req_k c k b s r = (s', p) -> failureb (reply_result p) = true ->
+    circ (br s') = Open /\ last_failure (br s') = Some (now s') /\
+    trips (br s') = trips (br s) + 1 /\ fcount (br s') = fcount (br s) + 1.
+Proof.
+  intros c k b s r s' p Hl Hi He Hp H Hf.
+  destruct (cb_request_proof c k b s r s' p H) as (R & _).
+  destruct (probe_failure_proof c s r s' _ Hl Hi He Hp R Hf) as (A & B & C & D & _). auto.
+Qed.
+
+(* isolation while open, with observers installed: every request that arrives is answered CIRCUIT_OPEN by a run()
+   that RETURNS (no observer is called for it), whatever the observers of the stragglers answered meanwhile do *)
+Lemma cb_open_isolates_proof :
+  forall c k ops s fl lf s' fl' rs,
+    enabled c = true -> circ (br s) = Open -> last_failure (br s) = Some lf -> lf <= now s ->
+    crequests_only (map fst ops) -> cmonotone (map fst ops) -> fl_monotone fl ->
+    krun c k (s, fl) ops = ((s', fl'), rs) -> now s' - lf < timeout c ->
+    Forall (fun x => fst x = true -> snd x = Returned res_circuit_open) rs /\
+    circ (br s') = Open /\
+    (exists lf', last_failure (br s') = Some lf' /\ lf <= lf' /\ lf' <= now s') /\
+    fcount (br s) <= fcount (br s') /\ trips (br s') = trips (br s) /\ zcalls s' = zcalls s /\
+    (length fl' <= length fl)%nat /\
+    0 <= ycalls s' - ycalls s <= Z.of_nat (length fl) - Z.of_nat (length fl') /\
+    spent s' = spent s + cost c * (ycalls s' - ycalls s).
+Proof.
+  intros c k ops s fl lf s' fl' rs He Ho Hl Hle Hro Hmo Hfl H Hlt.
+  destruct (overlap_open_isolates_proof c (map fst ops) s fl lf s' fl' (map untag rs) He Ho Hl Hle Hro Hmo Hfl
+              (krun_erase_eq c k ops _ _ _ H) Hlt) as (A & B).
+  split; [|exact B].
+  pose proof (krun_raised c k ops _ _ _ H) as Rz.
+  rewrite Forall_forall in A, Rz. apply Forall_forall. intros x Hx Ht.
+  specialize (A (untag x) (in_map untag rs x Hx) Ht). cbn [untag snd] in A.
+  specialize (Rz x Hx). destruct x as [tg [res|res]]; cbn [snd reply_result is_raised] in *.
+  - congruence.
+  - destruct (Rz eq_refl) as (_ & _ & _ & Hn). subst res. exfalso. apply Hn. reflexivity.
+Qed.
+
+(* krun and ktrace are the same history *)
+Lemma ktrace_krun c k : forall ops cs,
+  krun c k cs ops =
+  (last (map (fun x => snd (fst x)) (ktrace c k cs ops)) cs,
+   flat_map (fun x => match snd x with Some r => [r] | None => [] end) (ktrace c k cs ops)).
+Proof.
+  induction ops as [|o rest IH]; intros cs; [reflexivity|].
+  rewrite krun_cons. cbn [ktrace]. destruct (kstep c k cs o) as [cs1 r] eqn:E.
+  rewrite IH. cbn [map flat_map fst snd]. rewrite last_cons.
+  destruct r; reflexivity.
+Qed.
